@@ -295,7 +295,11 @@ def execute(sc, ctx):
             d2 = compare(replica, snap2, version, seen_only=True)
             # differences already explained by (a) are not restart findings
             d2 = [x for x in d2 if x not in d]
-            if d2:
+            if d2 and inj:
+                # one mechanism, one signature: a stored default that was injected in the saving session (policy sdkconfig)
+                ctx.violate("C14/restart-differs/injected-default-in-saving-session",
+                            f"a fresh server started on the saved file reports a state different from the client's replica: {d2[:4]}")
+            elif d2:
                 ctx.violate(f"C14/restart-differs/{vtag}/{mechanism(sess2.k, d2)}{inj}",
                             f"a fresh server started on the saved file reports a state different from the client's replica: {d2[:4]}")
             ctx.counters["probe:restart-compared"] += 1
